@@ -74,6 +74,10 @@ func classLine(class string, rng *rand.Rand) string {
 			ls = append(ls, validLine(map[string]any{"type": "new_epic", "id": fmt.Sprintf("i%d", k), "epic": "", "state": "todo", "title": fmt.Sprintf("tie %d", k), "body": "", "ts": float64(60)}))
 		}
 		return strings.Join(ls, "\n")
+	case "dep_cycle":
+		// hand-merged link events that form a dependency cycle i1 -> i3 -> i1
+		return validLine(map[string]any{"type": "link", "from": "i1", "to": "i3", "ts": float64(0)}) + "\n" +
+			validLine(map[string]any{"type": "link", "from": "i3", "to": "i1", "ts": float64(0)})
 	case "deep_nesting":
 		return `{"type":"future","ts":"2026-01-01T00:00:40Z","data":` + strings.Repeat("[", 5000) + strings.Repeat("]", 5000) + `}`
 	case "huge_valid_body":
@@ -141,6 +145,10 @@ func (e *Env) runLineCase(c lineCase, idx int, seed int64) (*Obs, error) {
 		args, stdin = []string{"--json", "new", "task"}, []byte(`{"title":"added"}`)
 	case "set":
 		args, stdin = []string{"--json", "set", t1}, []byte(`{"body":"changed"}`)
+	case "sequence":
+		args = []string{"--json", "sequence", craftID("i3"), t1}
+	case "sequence_rm":
+		args = []string{"--json", "sequence", "rm", t1, craftID("i3")}
 	case "compact":
 		args = []string{"--json", "compact"}
 	case "prune":
